@@ -505,10 +505,10 @@ pub fn c11(ctx: &CheckCtx) -> i32 {
          types following the documented inference rule; outputs unique and owned by their component). Non-trivial: \
          >= 2 components or a tag crossing a fold boundary; distinct by query text.",
     );
-    let cases = ctx.cases(120_000, 2_000_000);
+    let cases = ctx.cases(400_000, 4_000_000);
     let res = search(ctx, "c11", cases, WORLD_MIN_LEN, WORLD_MAX_LEN, |b, s, counting| c11_case(b, s, counting, &cfg));
     report.absorb(res, &|b| render_world_case(b, &cfg));
-    let cases = ctx.cases(60_000, 1_000_000);
+    let cases = ctx.cases(300_000, 3_000_000);
     let res = search(ctx, "c11-hostile", cases, 32, 600, crate::checks::frontend::c11_hostile_case);
     report.absorb(res, &|b| crate::checks::frontend::render_hostile(b));
     report.finish()
@@ -594,6 +594,7 @@ pub fn c13_case(bytes: &[u8], stats: &mut Stats, counting: bool, cfg: &GenConfig
     let adapter = Arc::new(GraphAdapter::new(case.world.clone()));
     let out = engine::execute(adapter, compiled.iq.clone(), engine::args_to_engine(&case.args), ROW_LIMIT);
     let rows = match out {
+        ExecOutcome::Budget => return Verdict::Discard("too-much-work".into()),
         ExecOutcome::Rows(r) => r,
         ExecOutcome::ArgError(_) => return Verdict::Discard("args-rejected(C12)".into()),
         ExecOutcome::Panic(p, _) => {
@@ -669,7 +670,7 @@ pub fn c13(ctx: &CheckCtx) -> i32 {
          a null, a nested list or a count; distinct by (declared-type signature, value-shape signature).",
     );
     report.assume("data values are Int/Float/String/Boolean and lists of them (no ID, no enums)");
-    let cases = ctx.cases(40_000, 2_000_000);
+    let cases = ctx.cases(600_000, 6_000_000);
     let res = search(ctx, "c13", cases, WORLD_MIN_LEN, WORLD_MAX_LEN, |b, s, counting| c13_case(b, s, counting, &cfg));
     report.absorb(res, &|b| render_world_case(b, &cfg));
     report.finish()
